@@ -762,7 +762,12 @@ def merge_moments(
             circuit,
             lambda op, _: (
                 op.untagged.replace(
-                    circuit=merge_moments(op.untagged.circuit, merge_func, deep=deep)
+                    circuit=merge_moments(
+                        op.untagged.circuit,
+                        merge_func,
+                        tags_to_ignore=tags_to_ignore,
+                        deep=deep,
+                    )
                 ).with_tags(*op.tags)
                 if isinstance(op.untagged, circuits.CircuitOperation)
                 else op
